@@ -1,7 +1,7 @@
 (* Decoding of C17 cases and verdicts. *)
 From Coq Require Import List NArith ZArith Bool.
 From FS Require Import Sx Model.Path Model.Stat Model.Tree Model.Hardlinks Model.TarHdr.
-From FS Require Model.Pattern Model.FilterWalk.
+From FS Require Model.Pattern Model.FilterWalk Model.Walk Glue.C09G.
 Import ListNotations.
 Open Scope N_scope.
 
@@ -240,4 +240,90 @@ Definition run_1703 (input impl : sx) : sx :=
       else verdict expected impl true (SL [])
     end
   | _ => v_malformed
+  end.
+
+(* kind 1704: the REAL on-disk walker under a filter with a Map table.
+   input = (view map-excluded-paths includes excludes): the harness materialises the view on
+   disk, takes an INDEPENDENT lstat/readlink/llistxattr snapshot with file contents, and runs
+   fsutil.NewFS(dir) -> NewFilterFS{Include, Exclude, Map: exclude the listed paths} -> WriteTar ->
+   archive/tar reader.
+   impl = (snapshot listed-paths archive-result pattern-table) | (#9) patterns rejected |
+          (#fffd msg) the harness could not set the case up.
+   The input view is NOT used here: ground truth is the snapshot.  Expected listing = the
+   declarative reference listing of the snapshot (Glue/C09G.ref_walk: protocol path order, true
+   stat of every path, second and later names of an inode carry Linkname = first name and the
+   real size), restricted to the paths an independent walk of the same filtered FS lists, with
+   the bytes the snapshot read.  The archive is judged member by member against that listing
+   after the hard-link reset, like kinds 1701/1702.  The selection itself is checked as far as
+   the Map table decides it: listed paths are a sub-sequence of the reference listing, none is
+   map-excluded, and without patterns they are exactly the others. *)
+Definition dec_raw_content (s : sx) : option (bytes * bytes) :=
+  match s with
+  | SL [SB p; SN _; SN _; SN _; SN _; SN _; SN _; SN _; SN _; SB _; _; SB c] => Some (p, c)
+  | _ => None
+  end.
+Fixpoint assoc_content (p : bytes) (t : list (bytes * bytes)) : bytes :=
+  match t with
+  | [] => []
+  | (q, c) :: r => if bytes_eqb q p then c else assoc_content p r
+  end.
+Fixpoint entries_of (full : list stat) (contents : list (bytes * bytes)) (paths : list bytes) : option (list entry) :=
+  match paths with
+  | [] => Some []
+  | p :: r =>
+    match find (fun s => bytes_eqb (st_path s) p) full with
+    | Some s => rest <- entries_of full contents r ;; Some ((s, assoc_content p contents) :: rest)
+    | None => None
+    end
+  end.
+Fixpoint is_subseq (sub l : list bytes) : bool :=
+  match sub, l with
+  | [], _ => true
+  | _ :: _, [] => false
+  | s :: sub', x :: l' => if bytes_eqb s x then is_subseq sub' l' else is_subseq sub l'
+  end.
+Fixpoint paths_eqb (a b : list bytes) : bool :=
+  match a, b with
+  | [], [] => true
+  | x :: a', y :: b' => bytes_eqb x y && paths_eqb a' b'
+  | _, _ => false
+  end.
+Definition mem_path (p : bytes) (l : list bytes) : bool := existsb (bytes_eqb p) l.
+
+Definition selection_ok (full : list stat) (paths mexcl : list bytes) (nopat : bool) : bool :=
+  let all := map st_path full in
+  is_subseq paths all
+  && forallb (fun p => negb (mem_path p mexcl)) paths
+  && (if nopat && forallb (fun s => negb (mem_path (st_path s) mexcl) || negb (mode_is_dir (st_mode s))) full
+      then paths_eqb paths (filter (fun p => negb (mem_path p mexcl)) all)
+      else true).
+
+Definition run_1704 (input impl : sx) : sx :=
+  match input, impl with
+  | SL [_; mt; inc; exc], SL [snapx; listed; res; pt] =>
+    match sx_list C09G.dec_raw snapx, sx_list dec_raw_content snapx, sx_list sx_B listed with
+    | Some snap, Some contents, Some paths =>
+      match sx_list sx_B mt, sx_list sx_B inc, sx_list sx_B exc with
+      | Some mexcl, Some ir, Some er =>
+        let full := C09G.ref_walk snap in
+        match entries_of full contents paths with
+        | None => v_specfail (SL []) (SL [SB [108; 115; 116]])          (* "lst": a listed path is not on disk *)
+        | Some l =>
+          let m := enc_result (write_tar_listing l) in
+          let sel := selection_ok full paths mexcl (is_nil ir && is_nil er) in
+          let sp := spec_archive (reset_entries l) (resolvable l) res in
+          let known :=
+            match sx_list dec_pentry pt, FilterWalk.mk_cfg ir er with
+            | Some tbl, Some c => open_denied_late_shadow tbl c l res
+            | _, _ => false
+            end in
+          let info := if negb sel then SL [SB [115; 101; 108]] else snd sp in     (* "sel" *)
+          verdict m res (sel && fst sp)
+                  (if known then SL [SL [SB s_sig; SB s_late_shadow]; info] else info)
+        end
+      | _, _, _ => v_malformed
+      end
+    | _, _, _ => v_malformed
+    end
+  | _, _ => v_malformed          (* (#9) patterns rejected, (#fffd msg) set-up failed: nothing to judge *)
   end.
